@@ -101,7 +101,7 @@ theorem ocLoop_spec (T0 : List Entry) (fuel : Nat) (T : List Entry) (target : Op
         split at h
         · cases h; exact ⟨hinv, hs, Nat.le_refl _⟩
         · rename_i hg
-          obtain ⟨es, rfl, hv, hsr, hup, hdown⟩ := bestMerge_spec T A hs m hb (by omega)
+          obtain ⟨es, rfl, hv, hsr, hup, hdown, hnd⟩ := bestMerge_spec T A hs m hb (by omega)
           have hins := insertionIndex_le T (mkMerge T es).gen
           rw [← mkMerge_ins_eq] at hins
           have hio : InsOk T (mkMerge T es) := by
